@@ -313,3 +313,16 @@ def ctor_field(crate, e, type_name, field, new_arg=None):
         if new_arg is not None and sub[0] == 'call' and type_name in sub[1] and short(sub[1]) == 'new' and new_arg < len(sub[2]):
             return sub[2][new_arg]
     return None
+
+
+def resolve_captures(crate, cf, e, depth=0):
+    """rewrite an expression of a (possibly nested) closure in terms of its top-level function:
+    captured variables are replaced by the captured operands, level by level"""
+    while cf is not None and cf.is_closure and depth < 6:
+        e2_ = subst_upvars(crate, cf, e)
+        parent, agg = parent_agg(crate, cf)
+        if agg is None:
+            break
+        e, cf = e2_, parent
+        depth += 1
+    return e
